@@ -1138,3 +1138,108 @@ Proof.
   unfold lookup. rewrite at_path_normalize. destruct (at_path p root) as [b|]; simpl; [|reflexivity].
   apply get_normalize.
 Qed.
+
+(* ------------------------------------------------------------------ *)
+(** * Operations on incomparable bucket paths commute *)
+
+Lemma replace_comm {E} n m (x y : E) (l : list (bytes * E)) :
+  n <> m -> ent_replace n x (ent_replace m y l) = ent_replace m y (ent_replace n x l).
+Proof.
+  intros NM. induction l as [|[k e] l IH]; simpl; [reflexivity|].
+  destruct (beqb m k) eqn:Bm; destruct (beqb n k) eqn:Bn; simpl; rewrite ?Bm, ?Bn.
+  - apply beqb_true in Bm. apply beqb_true in Bn. congruence.
+  - assert (beqb n m = false) as -> by (apply beqb_false; exact NM). reflexivity.
+  - assert (beqb m n = false) as -> by (apply beqb_false; congruence). reflexivity.
+  - f_equal. exact IH.
+Qed.
+
+Lemma set_comm_present {E} n m (x y ex ey : E) (l : list (bytes * E)) :
+  n <> m -> ent_get n l = Some ex -> ent_get m l = Some ey ->
+  ent_set n x (ent_set m y l) = ent_set m y (ent_set n x l).
+Proof.
+  intros NM Gn Gm.
+  assert (ent_set m y l = ent_replace m y l) as E1 by (unfold ent_set; rewrite Gm; reflexivity).
+  assert (ent_set n x l = ent_replace n x l) as E2 by (unfold ent_set; rewrite Gn; reflexivity).
+  unfold ent_set at 1. rewrite E1 at 1. rewrite get_replace_other, Gn by congruence.
+  unfold ent_set at 2. rewrite E2 at 1. rewrite get_replace_other, Gm by congruence.
+  rewrite E1, E2. apply replace_comm. exact NM.
+Qed.
+
+Lemma modify_comm p : forall q f g b,
+  ~ prefix p q -> ~ prefix q p ->
+  modify p f (modify q g b) = modify q g (modify p f b).
+Proof.
+  induction p as [|n p IH]; intros q f g b N1 N2.
+  - exfalso. apply N1. exists q. reflexivity.
+  - destruct q as [|m q]; [exfalso; apply N2; exists (n :: p); reflexivity|].
+    destruct b as [s l].
+    destruct (beqb n m) eqn:B.
+    + apply beqb_true in B. subst m.
+      simpl. destruct (ent_get n l) as [[v|c]|] eqn:G; simpl; rewrite ?G; try reflexivity.
+      rewrite !get_set_same, !set_set. do 3 f_equal.
+      apply IH; intros H; [apply N1|apply N2]; apply prefix_cons; exact H.
+    + apply beqb_false in B. simpl.
+      destruct (ent_get n l) as [[vn|cn]|] eqn:Gn; destruct (ent_get m l) as [[vm|cm]|] eqn:Gm;
+        simpl; rewrite ?Gn, ?Gm; try reflexivity;
+        try (rewrite get_set_other by congruence; rewrite ?Gn, ?Gm; reflexivity).
+      rewrite (get_set_other m n) by congruence. rewrite (get_set_other n m) by congruence.
+      rewrite Gn, Gm. f_equal. eapply set_comm_present; eauto.
+Qed.
+
+Lemma exec_op_comm w o1 o2 root :
+  ~ prefix (fst o1) (fst o2) -> ~ prefix (fst o2) (fst o1) ->
+  let '(r1, x1) := exec_op w o1 root in
+  let '(r12, x2) := exec_op w o2 r1 in
+  let '(r2, y2) := exec_op w o2 root in
+  let '(r21, y1) := exec_op w o1 r2 in
+  r12 = r21 /\ x1 = y1 /\ x2 = y2.
+Proof.
+  destruct o1 as [p1 b1], o2 as [p2 b2]. simpl. intros N1 N2.
+  unfold exec_op. cbn [fst snd].
+  destruct (at_path p1 root) as [c1|] eqn:A1; destruct (at_path p2 root) as [c2|] eqn:A2.
+  - destruct (exec_bop w b1 c1) as [c1' x1] eqn:X1. destruct (exec_bop w b2 c2) as [c2' x2] eqn:X2.
+    rewrite at_path_modify_incomparable, A2 by assumption. rewrite X2.
+    rewrite at_path_modify_incomparable, A1 by assumption. rewrite X1.
+    repeat split. apply modify_comm; assumption.
+  - destruct (exec_bop w b1 c1) as [c1' x1] eqn:X1.
+    rewrite at_path_modify_incomparable, A2 by assumption. rewrite ?A1, ?X1. auto.
+  - rewrite ?A2. destruct (exec_bop w b2 c2) as [c2' x2] eqn:X2.
+    rewrite at_path_modify_incomparable, A1 by assumption. auto.
+  - rewrite ?A2, ?A1. auto.
+Qed.
+
+(* ------------------------------------------------------------------ *)
+(** * Cursor.Delete followed by a re-Seek of the same key lands on the follower *)
+
+Lemma find_filter {A} (p q : A -> bool) l :
+  find p (filter q l) = find (fun x => q x && p x) l.
+Proof.
+  induction l as [|x l IH]; simpl; [reflexivity|].
+  destruct (q x); simpl; [destruct (p x); auto|exact IH].
+Qed.
+
+Lemma find_ext {A} (p q : A -> bool) l : (forall x, p x = q x) -> find p l = find q l.
+Proof.
+  intros H. induction l as [|x l IH]; simpl; [reflexivity|]. rewrite H, IH. reflexivity.
+Qed.
+
+Lemma trichotomy_bool k x : negb (beqb k x) && negb (bltb x k) = bltb k x.
+Proof.
+  unfold beqb, bltb. rewrite (bcmp_antisym k x). destruct (bcmp k x); reflexivity.
+Qed.
+
+Lemma first_ge_del k (l : list (bytes * ent)) : first_ge k (ent_del k l) = first_gt k l.
+Proof.
+  unfold first_ge, first_gt, ent_del. rewrite find_filter. apply find_ext.
+  intros x. apply trichotomy_bool.
+Qed.
+
+Lemma delete_then_reseek l k v :
+  ent_get k l = Some (inl v) ->
+  cursor_run true (l, PAt k) [CDelete; CSeek k] =
+  (ent_del k l, [CErr None; match first_gt k l with Some ke => seen ke | None => CKV None end]).
+Proof.
+  intros G. rewrite cursor_run_cons. simpl cursor_step. rewrite G.
+  rewrite cursor_run_cons, seek_step, first_ge_del.
+  destruct (first_gt k l); reflexivity.
+Qed.
